@@ -22,6 +22,8 @@ VERIF = os.path.dirname(HERE)
 #   ("str",   c_expr, coq_name)                  -- C string -> list of bytes
 #   ("dtype", c_var, coq_prefix)                 -- LHADecoderType max_read/block_size
 #   ("raw", c_code_printing_lines, None)         -- custom C statements printing "DEF name value" lines
+#   ("local", c_function, c_local_var, coq_name) -- sizeof a function-local variable, read from the
+#                                                   compiler's debug information (gdb "info scope")
 PROBES = []
 
 def probe(cfile, items, pre=""):
@@ -101,6 +103,13 @@ probe("lib/pm2_decoder.c", [
     ("macro", "sizeof(((LHAPM2Decoder*)0)->code_tree)", "pm2_code_tree_extent"),
     ("macro", "sizeof(((LHAPM2Decoder*)0)->offset_tree)", "pm2_offset_tree_extent"),
     ("macro", "TREE_NODE_LEAF", "pm2_TREE_NODE_LEAF"),
+    ("macro", "CODE_TREE_ELEMENTS", "pm2_CODE_TREE_ELEMENTS"),
+    ("macro", "OFFSET_TREE_ELEMENTS", "pm2_OFFSET_TREE_ELEMENTS"),
+    ("macro", "sizeof(TreeElement)", "pm2_tree_element_size"),
+    ("macro", "(size_t) -1", "pm2_SIZE_MAX"),
+    ("macro", "sizeof(((HistoryLinkedList*)0)->history)/sizeof(HistoryNode)", "pma_history_extent"),
+    ("local", "read_code_tree", "code_lengths", "pm2_code_lengths_extent"),
+    ("local", "read_offset_tree", "offset_lengths", "pm2_offset_lengths_extent"),
     ("raw", r'''
     printf("TABLE pm2_history_decode_offset"); for (i = 0; i < sizeof(history_decode)/sizeof(*history_decode); ++i) printf(" %u", (unsigned) history_decode[i].offset); printf("\n");
     printf("TABLE pm2_history_decode_bits"); for (i = 0; i < sizeof(history_decode)/sizeof(*history_decode); ++i) printf(" %u", (unsigned) history_decode[i].bits); printf("\n");
@@ -158,6 +167,19 @@ def write_probe(repo, cfile, items, pre, path):
         f.write("\n".join(lines) + "\n")
 
 
+def local_sizeof(exe, func, var):
+    """Size in bytes of a local variable of a function, as recorded by the
+    compiler in the debug information of the probe executable."""
+    try:
+        r = subprocess.run(["gdb", "-batch", "-nx", "-ex", "info scope %s" % func, exe],
+                           stdout=subprocess.PIPE, stderr=subprocess.STDOUT, timeout=60)
+    except (OSError, subprocess.TimeoutExpired):
+        return None
+    import re
+    m = re.search(r"Symbol %s is [^.]*?length (\d+)\." % re.escape(var), r.stdout.decode(errors="replace"), re.S)
+    return int(m.group(1)) if m else None
+
+
 def include_flags(repo):
     flags = ["-I" + repo, "-I" + os.path.join(repo, "lib"), "-I" + os.path.join(repo, "lib/public"),
              "-I" + os.path.join(repo, "src")]
@@ -172,14 +194,36 @@ def run_probes(repo, extra=None):
     tmp = tempfile.mkdtemp(prefix="lhasa_probe_")
     try:
         allp = list(PROBES) + list(extra or [])
+        # a static library of the whole of lib/ so that probes of files that call into
+        # other files link; the probe's own copy of the included file wins
+        libsrc = ["crc16.c", "ext_header.c", "lh1_decoder.c", "lh5_decoder.c", "lh6_decoder.c", "lh7_decoder.c",
+                  "lhx_decoder.c", "lk7_decoder.c", "lha_arch_unix.c", "lha_decoder.c", "lha_endian.c",
+                  "lha_file_header.c", "lha_input_stream.c", "lha_basic_reader.c", "lha_reader.c", "lz5_decoder.c",
+                  "lzs_decoder.c", "macbinary.c", "null_decoder.c", "pm1_decoder.c", "pm2_decoder.c"]
+        objs = []
+        cps = []
+        for f in libsrc:
+            o = os.path.join(tmp, f + ".o")
+            objs.append(o)
+            cps.append(subprocess.Popen(["cc", "-w", "-O0", "-DHAVE_CONFIG_H", "-c"] + include_flags(repo) +
+                                        [os.path.join(repo, "lib", f), "-o", o],
+                                        stdout=subprocess.PIPE, stderr=subprocess.STDOUT))
+        for f, p in zip(libsrc, cps):
+            out, _ = p.communicate()
+            if p.returncode != 0:
+                sys.stderr.write("translator: cannot compile lib/%s:\n%s\n" % (f, out.decode(errors="replace")[-2000:]))
+                return None
+        lib = os.path.join(tmp, "libprobe.a")
+        if subprocess.run(["ar", "rcs", lib] + objs).returncode != 0:
+            return None
         procs = []
         for k, (cfile, items, pre) in enumerate(allp):
             src = os.path.join(tmp, "probe%d.c" % k)
             exe = os.path.join(tmp, "probe%d" % k)
             write_probe(repo, cfile, items, pre, src)
-            cmd = ["cc", "-w", "-O0", "-DHAVE_CONFIG_H"] + include_flags(repo) + [src, "-o", exe]
-            procs.append((cfile, exe, subprocess.Popen(cmd, stdout=subprocess.PIPE, stderr=subprocess.STDOUT)))
-        for cfile, exe, p in procs:
+            cmd = ["cc", "-w", "-O0", "-g", "-DHAVE_CONFIG_H"] + include_flags(repo) + [src, lib, "-o", exe, "-Wl,--allow-multiple-definition"]
+            procs.append((cfile, exe, items, subprocess.Popen(cmd, stdout=subprocess.PIPE, stderr=subprocess.STDOUT)))
+        for cfile, exe, items, p in procs:
             out, _ = p.communicate()
             if p.returncode != 0:
                 sys.stderr.write("translator: cannot compile probe for %s:\n%s\n" % (cfile, out.decode(errors="replace")[-2000:]))
@@ -196,6 +240,13 @@ def run_probes(repo, extra=None):
                     defs.append((parts[1], int(parts[2])))
                 elif parts[0] == "TABLE":
                     tables.append((parts[1], [int(x) for x in parts[2:]]))
+            for it in items:
+                if it[0] == "local":
+                    v = local_sizeof(exe, it[1], it[2])
+                    if v is None:
+                        sys.stderr.write("translator: no debug information for %s in %s (%s)\n" % (it[2], it[1], cfile))
+                        return None
+                    defs.append((it[3], v))
     finally:
         shutil.rmtree(tmp, ignore_errors=True)
     return defs, tables
